@@ -241,7 +241,9 @@ class Call:
             contrast = Treatment()
 
         if levels is None:
-            categories = sorted(list(set(data)))
+            # Python scalars, like the levels of a plain variable: labels must not depend on how
+            # NumPy prints its own scalar types (e.g. np.set_printoptions(legacy="1.13"))
+            categories = sorted(set(data.tolist()))
         else:
             if set(levels) != set(data):
                 raise ValueError("The levels beign assigned and the levels in the data differ")
